@@ -101,18 +101,28 @@ class Probe:
         self.rec = {}
         va, ps = k.valid_arrays, k.photon_sum
 
-        def valid_arrays(zsave, *a, **kw):
-            self.rec["nsteps"] = int(len(zsave))
-            self.rec["zs_dtype"] = str(zsave.dtype)
-            out = va(zsave, *a, **kw)
-            self.rec["nvalid"] = int(len(out[0]))
-            self.rec["izmax"] = int(np.argmax(out[6])) if len(out[6]) else 0
+        # the recorders must never change what the kernel does or make it fail: arguments are passed through
+        # untouched and a recorder that no longer fits the code (refactored signature) only marks the record
+        def valid_arrays(*a, **kw):
+            out = va(*a, **kw)
+            try:
+                zsave = a[0]
+                self.rec["nsteps"] = int(len(zsave))
+                self.rec["zs_dtype"] = str(zsave.dtype)
+                self.rec["nvalid"] = int(len(out[0]))
+                self.rec["izmax"] = int(np.argmax(out[6])) if len(out[6]) else 0
+            except Exception:  # noqa
+                self.rec["probe_failed"] = True
             return out
 
-        def photon_sum(SPYield, DistStep, thetaC, e2hill, eCthres, Tfrac, E0, s, Eshow):
-            self.rec["sumjlim"] = int(np.sum(np.floor(DistStep * np.tan(thetaC, dtype=k.dtype)) + 1))
-            self.rec["ieang"] = int(np.log10(Eshow)) + 1
-            return ps(SPYield, DistStep, thetaC, e2hill, eCthres, Tfrac, E0, s, Eshow)
+        def photon_sum(*a, **kw):
+            try:
+                DistStep, thetaC, Eshow = a[1], a[2], a[8]
+                self.rec["sumjlim"] = int(np.sum(np.floor(DistStep * np.tan(thetaC, dtype=k.dtype)) + 1))
+                self.rec["ieang"] = int(np.log10(Eshow)) + 1
+            except Exception:  # noqa
+                self.rec["probe_failed"] = True
+            return ps(*a, **kw)
 
         k.valid_arrays = valid_arrays
         k.photon_sum = photon_sum
@@ -132,7 +142,7 @@ def relerr(x, ref):
     return abs(x - ref) / abs(ref)
 
 
-def check_events(ctx: Ctx, ev, p64: Probe, p32: Probe, tag: str):
+def check_events(ctx: Ctx, ev, p64: Probe, p32: Probe, tag: str, DET_ALT=DET_ALT):
     """run all three evaluations on the events, compare; returns per-event records"""
     lines = [cc.run_line("c64", DET_ALT, b, a, e) for _, b, a, e in ev]
     model = [cc.parse_run(t) for t in run_driver_sharded(lines)]
@@ -156,6 +166,10 @@ def check_events(ctx: Ctx, ev, p64: Probe, p32: Probe, tag: str):
             ctx.disagree("C06.run-float64-raises", {**case, "error": x64})
         else:
             disc = {k_: (m[k_], r64.get(k_)) for k_ in ("nsteps", "nvalid", "ieang", "sumjlim", "izmax") if m[k_] != r64.get(k_)}
+            if r64.get("probe_failed") or "nsteps" not in r64:
+                ctx.disagree("C06.probe-does-not-fit-the-code", {"kind": kind})
+                disc = {}
+                r64.setdefault("zs_dtype", "float64"); r32.setdefault("zs_dtype", "float64")
             if r64.get("zs_dtype") != "float64":
                 ctx.disagree("C06.zsteps-not-double", {**case, "dtype": r64.get("zs_dtype")})
             if disc:
@@ -245,57 +259,86 @@ def run(ctx: Ctx, thorough=None):
                 ctx.violation("CphotAng.run", "beta<1deg-not-treated-as-1deg", "result differs from the result at 1 deg", case)
             if (m["den"], m["ang"]) != (mo[0]["den"], mo[0]["ang"]):
                 ctx.disagree("C06.model-clamp", case)
-    # ---- (c) zsteps: rebuilt C++ vs Model.zsteps, step by step, production constants and hook constants
-    rb = zshim.rebuilt()
-    sub = recs[:: (4 if not thorough else 16)]
-    zl, zargs = [], []
-    for r in sub:
-        _, b, a, e = r["ev"]
-        for name, k in (("c32", k32), ("c64", k64)):
-            bb = k.dtype(np.radians(k.dtype(1)) if b < np.radians(1.0) else b)
-            s = np.sin(k.theta_view(bb), dtype=k.dtype)
-            zl.append(f"cphot_zsteps {cc.CSET[name]} {f2h(s)} {f2h(a)}")
-            zargs.append((name, k, a, s))
-    bit_equal = 0
-    for (name, k, a, s), o in zip(zargs, run_driver_sharded(zl)):
-        zs, dz = k.zsteps(a, s)
-        n = int(o[0])
-        ctx.case(("zsteps", name, float(a), float(s)))
-        ctx.traces += 1
-        if zs.dtype != np.float64:
-            ctx.disagree("C06.zsteps-not-double", {"set": name, "dtype": str(zs.dtype)})
-            continue
-        mz = np.array([h2f(x) for x in o[1:1 + n]])
-        md = np.array([h2f(x) for x in o[1 + n:]])
-        if n != len(zs):
-            ctx.disagree("C06.zsteps-count", {"set": name, "alt": float(a), "s": float(s), "model": n, "code": len(zs)})
-        elif not (np.allclose(mz, zs, rtol=1e-12, atol=0) and np.allclose(md, dz, rtol=1e-9, atol=1e-15)):
-            ctx.disagree("C06.zsteps-values", {"set": name, "alt": float(a), "s": float(s),
-                                               "max_rel_z": float(np.max(np.abs(mz - zs) / zs))})
-        elif np.array_equal(mz, zs) and np.array_equal(md, dz):
-            bit_equal += 1
-    ctx.extra["zsteps_traces"] = {"compared": len(zargs), "bit_identical": bit_equal}
-    # the float32 instantiation is unreachable from Python; still compare it with the double one for sanity of the shim
-    # ---- per-segment columns on a subset (localises a drift: cumsum direction, masks, ozone interpolation …)
-    sub2 = recs[:: (16 if not thorough else 64)]
-    cl = [f"cphot_segs 0 {f2h(r['ev'][1])} {f2h(r['ev'][2])} {f2h(r['ev'][3])}" for r in sub2]
-    names = ["zs", "delgram", "ZonZ", "ThetPrpA", "AirN", "s", "RN", "e2hill"]
-    for r, o in zip(sub2, run_driver_sharded(cl)):
-        _, b, a, e = r["ev"]
-        bb = k64.dtype(np.radians(k64.dtype(1)) if b < np.radians(1.0) else b)
-        s = np.sin(k64.theta_view(bb), dtype=k64.dtype)
-        cols = k64.valid_arrays(*k64.slant_depth(a, s), k64.dtype(e * 1e8))
-        nv = int(o[1])
-        ctx.case(("columns", b, a, e))
-        ctx.traces += 1
-        if nv != len(cols[0]):
-            ctx.disagree("C06.columns-count", {"beta": b, "alt": a, "E": e, "model": nv, "code": len(cols[0])})
-            continue
-        m = np.array([h2f(x) for x in o[2:]]).reshape(nv, 8)
-        for i, nm in enumerate(names):
-            if not np.allclose(m[:, i], cols[i], rtol=1e-9, atol=1e-300):
-                ctx.disagree(f"C06.column-{nm}", {"beta": b, "alt": a, "E": e,
-                                                  "max_rel": float(np.max(np.abs(m[:, i] - cols[i]) / np.maximum(np.abs(cols[i]), 1e-300)))})
+    # ---- other detector altitudes: the density is scaled by the squared distance ratio; sub-degree angles included
+    for det in ([33.0, 1000.0] if not thorough else [5.0, 33.0, 120.0, 1000.0, 36000.0]):
+        pp64, pp32 = Probe(cc.make_kernel(det, True)), Probe(cc.make_kernel(det, False))
+        evd = []
+        for bdeg in (0.0, 0.5, 1.0, 5.0, 20.0, 40.0):
+            evd.append((f"det{det:g}", float(np.radians(bdeg)), float(rng.uniform(0.0, min(19.0, 0.9 * det))), float(10 ** rng.uniform(-3, 3))))
+        check_events(ctx, evd, pp64, pp32, f"detector{det:g}km", DET_ALT=det)
+    # ---- call histories on ONE kernel object: same track, energies ascending / descending / repeated; every result
+    # must be bit-identical to the result of a fresh object (the kernel is a function of the event only)
+    for tr in range(8 if thorough else 3):
+        b = float(np.radians(rng.uniform(1.0, 40.0))); a = float(rng.uniform(0.0, 15.0))
+        energies = [1e-5, 1e-3, 1e-1, 10.0, 1e3, 1e4]
+        order = [energies, energies[::-1], [1e-5, 1e4, 1e-5, 1e4]][tr % 3]
+        kseq = cc.make_kernel(DET_ALT, False)
+        for n_, e in enumerate(order):
+            got = kseq.run(b, a, e, 0.0, 0.0, None)
+            fresh = cc.make_kernel(DET_ALT, False).run(b, a, e, 0.0, 0.0, None)
+            ctx.case(("history", tr, n_))
+            ctx.count("history-stream")
+            if f2h(got[0]) != f2h(fresh[0]) or f2h(got[1]) != f2h(fresh[1]):
+                ctx.violation("CphotAng.run", "history-dependent", "result on a reused kernel object differs from a fresh object's",
+                              {"beta_rad": b, "alt_km": a, "E_100PeV": e, "earlier_energies_on_same_track": order[:n_],
+                               "reused": [float(got[0]), float(got[1])], "fresh": [float(fresh[0]), float(fresh[1])]})
+    # The two sections below call internal methods of the kernel with the signatures of the modelled code. They only
+    # localise a drift; if the code was refactored so that they no longer fit, that is a broken correspondence
+    # (the end-to-end comparison above still decides the property), not a failure of the check.
+    try:
+        # ---- (c) zsteps: rebuilt C++ vs Model.zsteps, step by step, production constants and hook constants
+        rb = zshim.rebuilt()
+        sub = recs[:: (4 if not thorough else 16)]
+        zl, zargs = [], []
+        for r in sub:
+            _, b, a, e = r["ev"]
+            for name, k in (("c32", k32), ("c64", k64)):
+                bb = k.dtype(np.radians(k.dtype(1)) if b < np.radians(1.0) else b)
+                s = np.sin(k.theta_view(bb), dtype=k.dtype)
+                zl.append(f"cphot_zsteps {cc.CSET[name]} {f2h(s)} {f2h(a)}")
+                zargs.append((name, k, a, s))
+        bit_equal = 0
+        for (name, k, a, s), o in zip(zargs, run_driver_sharded(zl)):
+            zs, dz = k.zsteps(a, s)
+            n = int(o[0])
+            ctx.case(("zsteps", name, float(a), float(s)))
+            ctx.traces += 1
+            if zs.dtype != np.float64:
+                ctx.disagree("C06.zsteps-not-double", {"set": name, "dtype": str(zs.dtype)})
+                continue
+            mz = np.array([h2f(x) for x in o[1:1 + n]])
+            md = np.array([h2f(x) for x in o[1 + n:]])
+            if n != len(zs):
+                ctx.disagree("C06.zsteps-count", {"set": name, "alt": float(a), "s": float(s), "model": n, "code": len(zs)})
+            elif not (np.allclose(mz, zs, rtol=1e-12, atol=0) and np.allclose(md, dz, rtol=1e-9, atol=1e-15)):
+                ctx.disagree("C06.zsteps-values", {"set": name, "alt": float(a), "s": float(s),
+                                                   "max_rel_z": float(np.max(np.abs(mz - zs) / zs))})
+            elif np.array_equal(mz, zs) and np.array_equal(md, dz):
+                bit_equal += 1
+        ctx.extra["zsteps_traces"] = {"compared": len(zargs), "bit_identical": bit_equal}
+        # the float32 instantiation is unreachable from Python; still compare it with the double one for sanity of the shim
+        # ---- per-segment columns on a subset (localises a drift: cumsum direction, masks, ozone interpolation …)
+        sub2 = recs[:: (16 if not thorough else 64)]
+        cl = [f"cphot_segs 0 {f2h(r['ev'][1])} {f2h(r['ev'][2])} {f2h(r['ev'][3])}" for r in sub2]
+        names = ["zs", "delgram", "ZonZ", "ThetPrpA", "AirN", "s", "RN", "e2hill"]
+        for r, o in zip(sub2, run_driver_sharded(cl)):
+            _, b, a, e = r["ev"]
+            bb = k64.dtype(np.radians(k64.dtype(1)) if b < np.radians(1.0) else b)
+            s = np.sin(k64.theta_view(bb), dtype=k64.dtype)
+            cols = k64.valid_arrays(*k64.slant_depth(a, s), k64.dtype(e * 1e8))
+            nv = int(o[1])
+            ctx.case(("columns", b, a, e))
+            ctx.traces += 1
+            if nv != len(cols[0]):
+                ctx.disagree("C06.columns-count", {"beta": b, "alt": a, "E": e, "model": nv, "code": len(cols[0])})
+                continue
+            m = np.array([h2f(x) for x in o[2:]]).reshape(nv, 8)
+            for i, nm in enumerate(names):
+                if not np.allclose(m[:, i], cols[i], rtol=1e-9, atol=1e-300):
+                    ctx.disagree(f"C06.column-{nm}", {"beta": b, "alt": a, "E": e,
+                                                      "max_rel": float(np.max(np.abs(m[:, i] - cols[i]) / np.maximum(np.abs(cols[i]), 1e-300)))})
+    except (TypeError, AttributeError, ValueError, IndexError) as ex:
+        ctx.disagree("C06.internal-api-differs-from-model", {"error": f"{type(ex).__name__}: {str(ex)[:200]}"})
     return recs
 
 
